@@ -242,3 +242,54 @@ def _steep(spec, model):
         if r['name'] == spec['name']:
             return {'confirmed': not r['ok'], 'observed': r['detail'], 'expected': 'distribution x width increment == pore volume in every bin'}
     return {'confirmed': False, 'error': 'case not found'}
+
+
+def own_properties_cases():
+    """two isotherms analysed one after the other in one process, measured with user-defined fluids (no thermodynamic backend) that
+    carry the same name and temperature but different molar mass / liquid density / surface tension: with a zero-thickness layer every
+    reported width of the second calculation is the first one's times (gamma*M/rho)_2 / (gamma*M/rho)_1 -- the Kelvin equation with
+    the properties of the isotherm in hand, whatever was calculated before"""
+    import warnings
+    import pygaps
+    import pygaps.characterisation as pgc
+    pygaps.logger.disabled = True
+    p = numpy.round(numpy.arange(0.05, 0.96, 0.05), 2)
+    v = numpy.where(p <= 0.6, 0.05, 0.35)
+
+    def mk(name, M, rho, gamma):
+        ads = pygaps.Adsorbate(name, molar_mass=M, liquid_density=rho, surface_tension=gamma)
+        iso = pygaps.PointIsotherm(pressure=list(p), loading=list(v), material='pgv_c16', adsorbate='nitrogen', temperature=87.0, pressure_mode='relative',
+                                   pressure_unit=None, loading_basis='volume_liquid', loading_unit='cm3', material_basis='mass', material_unit='g',
+                                   temperature_unit='K')
+        iso.adsorbate = ads
+        return iso
+    sets = ((40.0, 1.40, 12.0), (40.0, 1.50, 8.0), (44.0, 1.40, 12.0))
+    for method, geom in (('pygaps-DH', 'slit'), ('pygaps-DH', 'cylinder'), ('pygaps-DH', 'sphere'), ('BJH', 'cylinder'), ('DH', 'cylinder')):
+        for br in ('ads',):
+            name = f"own_properties|{method}|{geom}|{br}"
+            probs = []
+            try:
+                ws = []
+                for M, rho, gamma in sets:
+                    with warnings.catch_warnings():
+                        warnings.simplefilter('ignore')
+                        r = pgc.psd_mesoporous(mk('pgv-c16-fluid', M, rho, gamma), psd_model=method, pore_geometry=geom, branch=br,
+                                               thickness_model='zero thickness', kelvin_model='Kelvin')
+                    ws.append(numpy.asarray(r['pore_widths'], dtype=float))
+                k0 = sets[0][2] * sets[0][0] / sets[0][1]
+                for (M, rho, gamma), w in zip(sets[1:], ws[1:]):
+                    want = ws[0] * (gamma * M / rho) / k0
+                    if w.shape != want.shape or not numpy.allclose(w, want, rtol=1e-9):
+                        probs.append(f"fluid (M={M}, rho={rho}, gamma={gamma}) analysed after another fluid of the same name: widths {w[:3]}, "
+                                     f"Kelvin equation with its own properties gives {want[:3]}")
+            except Exception as exc:
+                probs = [f"{type(exc).__name__}: {exc}"[:160]]
+            yield {'name': name, 'ok': not probs, 'detail': '; '.join(probs[:1])}
+
+
+@replayer('c16.own_properties')
+def _own(spec, model):
+    for r in own_properties_cases():
+        if r['name'] == spec['name']:
+            return {'confirmed': not r['ok'], 'observed': r['detail'], 'expected': 'widths scale with gamma*M/rho of the isotherm in hand'}
+    return {'confirmed': False, 'error': 'case not found'}
